@@ -1,215 +1,310 @@
 """C09 — connect / stream / disconnect behave as a clean, repeatable life cycle."""
-from common import Prop, hexs, exc_name
-import vsim
-import refdev
-import sessionlib as sl
+import itertools
+
+from common import Prop
+import lifelib as ll
+
+NX_BASE = ["C", "X", "S", "T", "e0!", "W", "s0", "N!", "v5:1", "u0", "g0", "D", "d0"]
+COMM_BASE = ["C", "X", "S", "T", "e0", "W", "A", "N", "v5:1", "D"]
+OUTCOMES = ["a", "a", "a", "x", "l", "n1", "n-5", "n255"]
 
 
-def parse_line(line):
-    t = line.split(" ")
-    en = [] if t[3] == "-" else [c == "1" for c in t[3]]
-    div = [] if t[4] == "-" else [int(x) for x in t[4].split(",")]
-    return int(t[2]), en, div, int(t[5]), t[6].split(";")
-
-
-def run_calls(flags, en, div, started, calls, rich=None):
-    """the real NxscopeHandler under vsim against the reference device; per-call state strings"""
-    out = []
-    info = {}
-
-    def scenario(sim):
-        from nxslib.nxscope import NxscopeHandler
-        from nxslib.proto.parse import Parser
-        dev = refdev.RefDevice(sl.mk_chans(en, div), flags=flags)
-        dev.started = bool(started)
-        link = refdev.make_link(sim, dev, stream_every=4)
-        nx = NxscopeHandler(link, Parser())
-        queues = []
-        descs = []
-        for call in calls:
-            wn = call.endswith("!")
-            c = call[:-1] if wn else call
-            w0 = len(link.writes)
-            t0 = sim.now
-            req0 = dev.nreq
-            res = "ok"
-            try:
-                if c == "C":
-                    d = nx.connect()
-                    descs.append((d.data.chmax, d.data.flags, d.data.rxpadding,
-                                  tuple((ch.data._type, ch.data.vdim, ch.data.mlen, ch.data.name) for ch in d._channels)))
-                elif c == "X":
-                    nx.disconnect()
-                elif c == "S":
-                    nx.stream_start()
-                elif c == "T":
-                    nx.stream_stop()
-                elif c == "W":
-                    nx.channels_write()
-                elif c == "N":
-                    nx.ch_disable_all(wn)
-                elif c == "D":
-                    nx.channels_default_cfg(wn)
-                elif c[0] == "s":
-                    queues.append(nx.stream_sub(int(c[1:])))
-                elif c[0] == "u":
-                    k = int(c[1:])
-                    if k < len(queues):
-                        nx.stream_unsub(queues[k])
-                elif c[0] == "g":
-                    nx.dev_channel_get(int(c[1:]))
-                elif c[0] == "e":
-                    nx.ch_enable([int(x) for x in c[1:].split(",") if x], wn)
-                elif c[0] == "d":
-                    nx.ch_disable([int(x) for x in c[1:].split(",") if x], wn)
-                elif c[0] == "v":
-                    v, cs = c[1:].split(":")
-                    nx.ch_divider([int(x) for x in cs.split(",") if x], int(v), wn)
-                else:
-                    raise ValueError(call)
-            except Exception as e:
-                res = exc_name(e)
-            live = {t.name for t in sim.live_tasks()}
-            written = link.writes[w0:]
-            st = "".join(str(int(b)) for b in (nx._connected, nx._comm._started, nx._comm._dev is not None,
-                                               nx._stream_started, "recv" in live, "stream" in live,
-                                               link.started - link.stopped > 0))
-            subs = ",".join(".".join(str(queues.index(q)) for q in l) for l in nx._sub_q)
-            out.append(f"r={res};w={','.join(hexs(x) for x in written) or '-'};st={st};"
-                       f"dev={sl.bits(dev.en)}/{sl.ints(dev.div)}/{int(dev.started)};subs={subs}")
-            if rich is not None:
-                rich.append({"call": call, "res": res, "dt": sim.now - t0, "nreq": dev.nreq - req0, "live": sorted(live),
-                             "connected": nx._connected, "dev": nx.dev is not None, "dev_en": dev.en, "dev_started": dev.started})
-        info["descs"] = descs
-        # leave nothing behind
-        nx.disconnect()
-        info["live_end"] = [t.name for t in sim.live_tasks()]
-
-    r, sim = vsim.run_sim(scenario, time_limit=600.0, real_limit=20.0)
-    info["errors"] = [(n, repr(e)) for n, e, _ in sim.errors]
-    if isinstance(r, BaseException):
-        raise r
-    return out, info
-
-
-CALLS = ["C", "X", "S", "T", "W", "N", "N!", "D", "D!"]
-
-
-def gen_calls(rng, n, length, p_connect=0.2):
+def gen_calls(rng, n, length, mode="nx", p_connect=0.2, p_fail=0.0):
+    """a random history over the public calls; channel ids from -n-1 .. n (both ends out of range)"""
     out = []
     nq = 0
+    nx = mode == "nx"
+
+    def chan():
+        r = rng.random()
+        if r < 0.75 or n == 0:
+            return rng.randrange(n + 1) if (n == 0 or rng.random() < 0.08) else rng.randrange(n)
+        return -rng.randrange(1, n + 2)
+
+    def wn():
+        return rng.choice(["", "!"]) if nx else ""
+
     for _ in range(length):
         r = rng.random()
         if r < p_connect:
-            out.append("C")
+            c = "C"
         elif r < p_connect + 0.13:
-            out.append("X")
+            c = "X"
         elif r < 0.45:
-            out.append(rng.choice(["S", "T", "S", "W"]))
-        elif r < 0.55:
-            out.append(f"s{rng.randrange(n + 1)}")
+            c = rng.choice(["S", "T", "S", "W"])
+        elif r < 0.55 and nx:
+            c = f"s{chan()}"
             nq += 1
-        elif r < 0.6 and nq:
-            out.append(f"u{rng.randrange(nq)}")
+        elif r < 0.6 and nx and nq:
+            c = f"u{rng.randrange(nq + 1)}"
         elif r < 0.75:
-            cs = ",".join(str(rng.randrange(n)) for _ in range(rng.choice([1, 1, 2])))
-            out.append(rng.choice(["e", "d"]) + cs + rng.choice(["", "!"]))
+            cs = ",".join(str(chan()) for _ in range(rng.choice([1, 1, 2, 3])))
+            c = rng.choice(["e", "d"]) + cs + wn()
         elif r < 0.85:
-            out.append(f"v{rng.choice([0, 3, 200, 255, 256, -1])}:{rng.randrange(n)}" + rng.choice(["", "!"]))
+            cs = ",".join(str(chan()) for _ in range(rng.choice([1, 1, 2])))
+            c = f"v{rng.choice([0, 3, 200, 255, 256, -1])}:{cs}" + wn()
         elif r < 0.93:
-            out.append(rng.choice(["N", "N!", "D", "D!"]))
+            c = rng.choice(["N", "D"]) + wn() if nx else rng.choice(["N", "D", "A"])
+        elif nx:
+            c = f"g{chan()}"
         else:
-            out.append(f"g{rng.randrange(n + 1)}")
+            c = "W"
+        if c != "C" and rng.random() < p_fail:
+            c += "~" + ",".join(rng.choice(OUTCOMES) for _ in range(3))
+        out.append(c)
     return out
+
+
+def redundant_free(calls):
+    """drop every connect issued while connected and every disconnect issued while disconnected"""
+    out = []
+    keep = []
+    connected = False
+    for i, (c, a) in enumerate(calls):
+        if c == "C":
+            if connected:
+                continue
+            connected = True
+        elif c == "X":
+            if not connected:
+                continue
+            connected = False
+        out.append((c, a))
+        keep.append(i)
+    return out, keep
 
 
 class C09(Prop):
     id = "C09"
     lean_module = "NxsModel.Props.C09"
     rule = ("call histories over the public API of the high-level handler (connect, disconnect, stream start/stop, "
-            "subscribe/unsubscribe, buffered configuration with and without writenow, write, channel lookup): every "
-            "sequence of length <= 3 over 9 representative calls (thorough: <= 4), plus random histories of length "
-            "<= 25, from an idle device and from a device left streaming with channels enabled; executed on the real "
-            "NxscopeHandler under the virtual-time runtime against the reference device; per call: result / exception "
-            "kind, frames written, handler flags, live library threads, interface state, device state, subscriber lists "
-            "are compared with the model; distinct = distinct line; non-trivial = history containing a connect")
+            "subscribe/unsubscribe, buffered configuration with and without writenow, write, channel lookup) and of a bare "
+            "low-level CommHandler (connect, disconnect, stream start/stop, setters, write): every sequence of length <= 3 "
+            "over 13 (high) / 10 (low) representative calls (thorough: <= 4, sampled), the repeated-connect / repeated-"
+            "disconnect families, plus random histories of length <= 25 with channel ids from both ends incl. out of range, "
+            "for 0, 1, 2, 3, 5, 8, 16, 64 and 255 channels with varied static descriptions (type, dimension, metadata "
+            "length, name, rx padding), from an idle device and from a device left streaming with channels enabled, a "
+            "fraction with rejected / lost acknowledgements; executed on the real handlers under the virtual-time runtime "
+            "against the reference device; per call: result / exception kind / returned ACK, virtual time spent waiting for "
+            "the device, frames written, handler flags, live library threads, interface state, device state, subscriber "
+            "lists, client view and requested vectors, reported description are compared with the model; a subset with "
+            "real threads against the real DummyDev compares threading.enumerate() before connect / after disconnect; "
+            "distinct = distinct line; non-trivial = history containing a connect")
+    assumptions = ["virtual-time runtime (harness/vsim.py) preserves queue/lock/thread semantics",
+                   "reference device (harness/refdev.py) is a conforming NxScope device",
+                   "time spent joining a library thread is measured by the harness and bounded by the oracle, not modelled"]
+
+    _real = None
 
     def cases(self, rng, tier):
         T = tier == "thorough"
-        import itertools
-        base = ["C", "X", "S", "T", "e0!", "W", "s0", "N!", "v5:1"]
-        for k in range(1, (5 if T else 4)):
-            for seq in itertools.product(base, repeat=k):
-                if k == 4 and rng.random() > 0.25:
-                    continue
-                started = rng.randrange(2)
-                yield f"life run 3 {'010' if started else '000'} 0,{5 if started else 0},0 {started} {';'.join(seq)}", f"exhaustive-{k}"
+        P3 = ll.plain_chans(3)
+        # the real-thread sessions (seconds of real waiting each) run in sub-processes beside the correspondence phase
+        self._real = ll.real_sessions_start(ll.REAL_HISTORIES)
+        # exhaustive short histories, both handler levels
+        for mode, base in (("nx", NX_BASE), ("comm", COMM_BASE)):
+            for k in range(1, (5 if T else 4)):
+                for seq in itertools.product(base, repeat=k):
+                    if k == 4 and rng.random() > (0.06 if mode == "nx" else 0.15):
+                        continue
+                    if k == 3 and not T and rng.random() > 0.5:
+                        continue
+                    started = rng.randrange(2)
+                    yield ll.mk_line(mode, 3, [0, started, 0], [0, 5 if started else 0, 0], started, 0, P3, seq), f"exhaustive-{mode}-{k}"
+        # connect / disconnect repeated, around a buffered request (idempotence at both levels)
+        for mode in ("nx", "comm"):
+            for setter in ("e0", "e2,1", "v9:1", "d1", "D"):
+                for pre in (["C"], ["C", "C"], ["C", "X", "X", "C"], ["X", "C"]):
+                    for mid in (["C"], ["C", "C"], []):
+                        for fl in (3, 2):
+                            yield ll.mk_line(mode, fl, [0, 1, 0], [0, 0, 4], 0, 0, P3, pre + [setter] + mid + ["W", "X", "X"]), f"idem-{mode}"
+        # a uniform divider on every channel (the "all channels" form of the request), over the signed-byte boundary
+        for val in (127, 128, 200, 255):
+            for n in (1, 2, 3):
+                cs = ",".join(map(str, range(n)))
+                yield ll.mk_line("nx", 3, [0] * n, [0] * n, 0, 0, ll.plain_chans(n), ["C", "e0!", f"v{val}:{cs}", "X", "C", "X"]), "uniform-div"
+                yield ll.mk_line("comm", 3, [0] * n, [0] * n, 0, 0, ll.plain_chans(n), ["C", f"v{val}:{cs}", "W", "X"]), "uniform-div"
+        # F21: the previous session ended with a frame cut off in flight; the reconnect must succeed and report the same description
+        for pre in ([], ["e0", "W"], ["S"]):
+            for fl in (3, 1):
+                calls = ["C"] + pre + ["X", "C", "W", "X", "C", "X"]
+                yield ll.mk_line("comm", fl, [0, 1, 0], [0, 5, 0], 0, 0, P3, calls, cut=[1 + len(pre)]), "cut-frame"
+        yield ll.mk_line("comm", 3, [0, 1, 0], [0, 5, 0], 0, 0, P3, ["C", "X", "C", "X", "C", "X"], cut=[1, 3]), "cut-frame"
         # a device without channels (F18): connect, stream, write, disconnect must still be a clean life cycle
-        zero = ["C", "X", "S", "T", "W", "N", "N!", "D", "D!", "s0", "g0", "e0", "e0!", "v5:0!", "u0"]
-        yield "life run 3 - - 0 C;S;X;X", "zero-channels"
-        yield "life run 3 - - 1 C;X;C;W;N!;X", "zero-channels"
+        zero = ["C", "X", "S", "T", "W", "N", "N!", "D", "D!", "s0", "g0", "e0", "e0!", "v5:0!", "u0", "s-1", "e-1"]
+        yield ll.mk_line("nx", 3, [], [], 0, 0, [], ["C", "S", "X", "X"]), "zero-channels"
+        yield ll.mk_line("nx", 3, [], [], 1, 4, [], ["C", "X", "C", "W", "N!", "X"]), "zero-channels"
+        yield ll.mk_line("comm", 3, [], [], 1, 0, [], ["C", "S", "A", "W", "T", "X", "X"]), "zero-channels"
         for _ in range(60 if T else 20):
-            yield (f"life run {rng.randrange(4)} - - {rng.randrange(2)} "
-                   f"{';'.join(rng.choice(zero) for _ in range(rng.randrange(2, 12)))}"), "zero-channels"
-        yield f"life run 3 {'0' * 254 + '1'} {','.join(['0'] * 255)} 1 C;e3!;S;X;C;X", "255-channels"
-        for _ in range(800 if T else 150):
-            n = rng.choice([1, 2, 3, 5])
+            yield ll.mk_line("nx", rng.randrange(4), [], [], rng.randrange(2), rng.choice([0, 0, 8]), [],
+                             [rng.choice(zero) for _ in range(rng.randrange(2, 12))]), "zero-channels"
+        # the largest device
+        rxp, ch255 = ll.gen_desc(rng, 255)
+        yield ll.mk_line("nx", 3, [0] * 254 + [1], [0] * 255, 1, rxp, ch255, ["C", "e3!", "S", "s-255", "X", "C", "X"]), "255-channels"
+        yield ll.mk_line("comm", 3, [0] * 254 + [1], [0] * 255, 1, 0, ll.plain_chans(255), ["C", "e-255,254", "C", "W", "X"]), "255-channels"
+        # random histories
+        for it in range(900 if T else 170):
+            n = rng.choice([1, 2, 3, 5, 3, 2, 8, 16]) if it % 25 else rng.choice([64, 0, 255 if T else 64])
+            mode = "nx" if it % 3 else "comm"
             en = [rng.random() < 0.4 for _ in range(n)]
             div = [rng.choice([0, 0, 7]) for _ in range(n)]
-            yield (f"life run {rng.randrange(4)} {sl.bits(en)} {sl.ints(div)} {rng.randrange(2)} "
-                   f"{';'.join(gen_calls(rng, n, rng.randrange(1, 26)))}"), "random"
+            rxp, chans = ll.gen_desc(rng, n, plain=rng.random() < 0.3)
+            calls = gen_calls(rng, n, rng.randrange(1, 26), mode, p_fail=rng.choice([0.0, 0.0, 0.15]))
+            yield ll.mk_line(mode, rng.randrange(4), en, div, rng.randrange(2), rxp, chans, calls), f"random-{mode}"
 
     def impl(self, line):
-        flags, en, div, started, calls = parse_line(line)
-        out, info = run_calls(flags, en, div, started, calls)
-        if info["errors"] or info["live_end"]:
-            return "harness: " + repr(info["errors"]) + repr(info["live_end"])
-        return "ok " + " | ".join(out)
+        return ll.impl_line(line)
 
     def nontrivial(self, line, out):
-        return "C" in line.split(" ")[6]
+        return "C" in line.split(" ")[7].replace("~", ";").split(";")
 
+    # -- the property, judged on the real code --------------------------------------------------------------------
     def oracle(self, line, impl_out=None):
-        flags, en, div, started, calls = parse_line(line)
+        p = ll.parse_line(line)
+        v = self.judge(p)
+        if v:
+            v.setdefault("history", [c + ("~" + ",".join(a) if a else "") for c, a in p["calls"]])
+            v.setdefault("handler", "NxscopeHandler" if p["mode"] == "nx" else "bare CommHandler")
+        return v
+
+    def judge(self, p, meta=True):
         rich = []
+        nx = p["mode"] == "nx"
         try:
-            out, info = run_calls(flags, en, div, started, calls, rich)
+            out, info = ll.run_life(p, rich)
         except Exception as e:
-            key = "does-not-terminate" if type(e).__name__ in ("RealTimeLimit", "TimeLimit", "Spin", "Deadlock") else "session-raises"
-            return {"key": key, "what": f"{type(e).__name__}: {str(e)[:300]}", "expected": "-", "observed": "-"}
+            key = "does-not-terminate" if type(e).__name__ in ll.STUCK else "session-raises"
+            return {"key": key, "what": f"{type(e).__name__}: {str(e)[:300]}", "expected": "every call returns", "observed": "-"}
         if info["errors"] and any(k in info["errors"][0][1] for k in ("TimeLimit", "Spin", "Deadlock")):
             return {"key": "does-not-terminate", "what": "a call did not return within the virtual time budget: " + repr(info["errors"][0]),
                     "expected": "every call returns or raises in bounded time", "observed": info["errors"][0][1][:200]}
         if info["errors"]:
             return {"key": "thread-died", "what": "library thread died: " + repr(info["errors"][0]), "expected": "-", "observed": "-"}
-        if info["live_end"]:
-            return {"key": "thread-left", "what": f"threads alive after final disconnect: {info['live_end']}", "expected": "none", "observed": info["live_end"]}
-        if len(set(info["descs"])) > 1:
-            return {"key": "description-changed", "what": "reconnect reported a different static description", "expected": info["descs"][0], "observed": info["descs"]}
+        final = None
+        if info.get("final_disconnect"):
+            final = {"key": "after-disconnect", "what": f"the final disconnect raised {info['final_disconnect']}; threads alive: {info['live_end']}",
+                     "expected": "disconnect completes", "observed": info["final_disconnect"]}
+        elif info["live_end"]:
+            final = {"key": "thread-left", "what": f"threads alive after final disconnect: {info['live_end']}", "expected": "none", "observed": info["live_end"]}
+        want = (len(p["en"]), p["flags"], p["rxp"], tuple(p["chans"]))
+        for d in info["descs"]:
+            if d != info["descs"][0]:
+                return {"key": "description-changed", "what": "a reconnect reported a different static description",
+                        "expected": info["descs"][0], "observed": d}
+            if d != want:
+                return {"key": "description-changed", "what": "connect reports a static description that is not the device's",
+                        "expected": want, "observed": d}
         connected = False
+        clean = True               # every request of the current session was acknowledged so far
+        last_start = None          # payload of the last start/stop request the device got in the current session
         for i, r in enumerate(rich):
             c = r["call"].rstrip("!")
-            if not connected and c != "C":
+            if not (r["ans"] is None or all(a == "a" for a in r["ans"])):
+                clean = False
+            for k, pl in r["reqs"]:
+                if k == "start":
+                    last_start = pl
+            hist = [x["call"] for x in rich[:i + 1]]
+            if r["res"].split(":")[0] not in ("ok", "ack", "assert", "attr", "index", "value"):
+                return {"key": "unexpected-exception", "what": f"call {r['call']} raised {r['res']}", "expected": "ok, or the exception of a call "
+                        "on a handler without device / with an out-of-range argument", "observed": r["res"], "history": hist}
+            if r["dt"] > 7.0:
+                return {"key": "does-not-terminate", "what": f"call {r['call']} blocked for {r['dt']:.1f} virtual seconds",
+                        "expected": "at most 3 ACK timeouts, 2 drains, 2 thread joins", "observed": r["dt"], "history": hist}
+            if nx and not connected and c != "C":
                 # calls on the disconnected high-level handler never reach the device, start threads or block
-                if r["nreq"] or r["live"] or r["dt"] > 1e-9:
+                if r["nreq"] or r["nwrites"] or r["live"] or r["dt"] > 1e-9:
                     return {"key": "disconnected-not-inert", "what": f"call {r['call']} while disconnected reached the device / started a thread / blocked",
-                            "expected": "inert", "observed": f"requests={r['nreq']} live={r['live']} dt={r['dt']}", "history": calls[:i + 1]}
+                            "expected": "inert", "observed": f"requests={r['nreq']} writes={r['nwrites']} live={r['live']} dt={r['dt']}", "history": hist}
             if c == "C":
-                if connected and r["nreq"]:
-                    return {"key": "connect-not-idempotent", "what": "connect on a connected handler talked to the device", "expected": "0 requests", "observed": r["nreq"]}
+                if r["res"] != "ok" or not r["has_desc"]:
+                    return {"key": "no-description", "what": f"connect: {r['res']}, description reported: {r['has_desc']}", "expected": "ok with a description",
+                            "observed": r["res"], "history": hist}
+                if connected and (r["nreq"] or r["nwrites"] or r["dt"] > 1e-9 or r["state"] != rich[i - 1]["state"]):
+                    return {"key": "connect-not-idempotent", "what": "connect on a connected handler talked to the device / took time / changed the "
+                            "handler's state", "expected": rich[i - 1]["state"], "observed": f"requests={r['nreq']} dt={r['dt']} {r['state']}", "history": hist}
+                if not connected:
+                    clean = True
                 connected = True
-                if not r["dev"]:
-                    return {"key": "no-description", "what": "connect returned without a device description", "expected": "-", "observed": "-"}
             if c == "X":
-                if not connected and r["nreq"]:
-                    return {"key": "disconnect-not-idempotent", "what": "disconnect on a disconnected handler talked to the device", "expected": "0", "observed": r["nreq"]}
+                if r["res"] != "ok":
+                    return {"key": "after-disconnect", "what": f"disconnect raised {r['res']}: description reported={r['has_desc']}, threads={r['live']}, "
+                            f"device en={r['dev_en']} started={r['dev_started']}", "expected": "disconnect completes", "observed": r["res"], "history": hist}
+                if not connected and (r["nreq"] or r["nwrites"] or r["dt"] > 1e-9):
+                    return {"key": "disconnect-not-idempotent", "what": "disconnect on a disconnected handler talked to the device / took time",
+                            "expected": "0", "observed": f"requests={r['nreq']} dt={r['dt']}", "history": hist}
                 was = connected
                 connected = False
-                if r["dev"] or r["live"] or (was and (any(r["dev_en"]) or r["dev_started"])):
-                    return {"key": "after-disconnect", "what": "after disconnect: description still reported / thread alive / device still enabled or streaming",
-                            "expected": "no description, no thread, all channels disabled, stream stopped",
-                            "observed": f"dev={r['dev']} live={r['live']} en={r['dev_en']} started={r['dev_started']}", "history": calls[:i + 1]}
+                if r["has_desc"] or r["live"]:
+                    return {"key": "after-disconnect", "what": "after disconnect: description still reported / thread alive",
+                            "expected": "no description, no thread", "observed": f"dev={r['has_desc']} live={r['live']}", "history": hist}
+                if nx and was:
+                    # told to stop: the last start/stop request of the session is a stop (connect itself sends one)
+                    if last_start != b"\x00":
+                        return {"key": "after-disconnect", "what": "the last start/stop request the device got in this session was not a stop",
+                                "expected": "stop", "observed": last_start, "history": hist}
+                    # told to disable every channel: when the device acknowledged every request of the session its state says so
+                    # (after rejected / lost requests the device-side state is C11's business)
+                    if clean and (any(r["dev_en"]) or r["dev_started"]):
+                        return {"key": "after-disconnect", "what": "after disconnect (every request of the session acknowledged) the device is still enabled / streaming",
+                                "expected": "all channels disabled, stream stopped", "observed": f"en={r['dev_en']} started={r['dev_started']}", "history": hist}
+        if final:
+            return final
+        if not meta:
+            return None
+        # idempotence as a relation between histories: a connect on a connected handler and a disconnect on a
+        # disconnected one are no-ops, so dropping them changes nothing any other call observes
+        red, keep = redundant_free(p["calls"])
+        if len(red) < len(p["calls"]):
+            rich2 = []
+            try:
+                ll.run_life({**p, "calls": red}, rich2)
+            except Exception as e:
+                return {"key": "session-raises", "what": f"reduced history raises {type(e).__name__}: {str(e)[:200]}", "expected": "-", "observed": "-",
+                        "history": [c for c, _ in red]}
+            for k, r2 in zip(keep, rich2):
+                if rich[k]["obs"] != r2["obs"]:
+                    which = "connect" if any(c == "C" for c, _ in p["calls"][:k + 1]) else "disconnect"
+                    return {"key": "connect-not-idempotent" if which == "connect" else "disconnect-not-idempotent",
+                            "what": f"the history with its redundant connect/disconnect calls behaves differently from the history without them at call "
+                                    f"{k} ({rich[k]['call']}): a repeated connect/disconnect is not a no-op",
+                            "expected": r2["obs"], "observed": rich[k]["obs"], "history": [x["call"] for x in rich[:k + 1]],
+                            "reduced_history": [c for c, _ in red]}
         return None
+
+    # -- real threads against the real DummyDev: threading.enumerate() before connect / after disconnect ----------------
+    def extra_checks(self, rng, tier, ev):
+        procs = self._real or ll.real_sessions_start(ll.REAL_HISTORIES)
+        self._real = None
+        res = ll.real_sessions_collect(procs)
+        ev["coverage"]["real_thread_sessions"] = {
+            n: (r["error"] if "error" in r else " ".join(f"{s['call']}:{len(s['threads'])}" for s in r["steps"]) + f" end:{len(r['end'])}")
+            for n, r in res.items()}
+        out = []
+        for n, r in res.items():
+            v = ll.judge_real(n, r)
+            if v:
+                v["case"] = "real-threads:" + n
+                out.append(v)
+        return out
+
+    def replay(self, obj):
+        case = obj["case"]
+        if case.startswith("real-threads:"):
+            n = case.split(":", 1)[1]
+            hs = [h for h in ll.REAL_HISTORIES if h[0] == n]
+            res = ll.real_sessions(hs)
+            return ll.judge_real(n, res[n])
+        return self.oracle(case)
+
+    def search_cases(self, rng):
+        for _ in range(150):
+            n = rng.choice([1, 2, 3, 5])
+            mode = rng.choice(["nx", "nx", "comm"])
+            en = [rng.random() < 0.5 for _ in range(n)]
+            rxp, chans = ll.gen_desc(rng, n)
+            yield ll.mk_line(mode, rng.randrange(4), en, [rng.choice([0, 200]) for _ in range(n)], rng.randrange(2), rxp, chans,
+                             gen_calls(rng, n, rng.randrange(3, 14), mode, p_connect=0.3)), "search"
 
 
 PROP = C09()
